@@ -12,7 +12,7 @@ VERIF = os.path.dirname(os.path.dirname(os.path.abspath(__file__)))
 REPO = os.environ.get("VERIF_REPO", "/repo")
 SPEC = os.path.join(VERIF, "spec")
 WORKROOT = os.path.join(VERIF, ".work")
-HARNESS_BIN = os.path.join(WORKROOT, "bin", "harness")
+HARNESS_BIN = os.path.join(WORKROOT, "bin", "harness" if REPO == "/repo" else "harness_" + hashlib.sha1(REPO.encode()).hexdigest()[:8])
 NPROC = min(16, os.cpu_count() or 4)
 
 GOENV = dict(os.environ, GOFLAGS="-mod=mod", GOPROXY="off", GOSUMDB="off", GOTOOLCHAIN="local", GOWORK="off")
@@ -338,7 +338,7 @@ def finish(run, level_text=""):
         "wall_s": round(time.time() - run.t0, 1),
         "violations": violations,
     }
-    if not run.replay:
+    if not run.replay and not os.environ.get("VERIF_NO_EVIDENCE"):
         os.makedirs(os.path.join(VERIF, "evidence"), exist_ok=True)
         json.dump(ev, open(os.path.join(VERIF, "evidence", run.prop + ".json"), "w"), indent=1)
     for l in lines:
